@@ -510,4 +510,40 @@ theorem initDoms_sub (vars : List VarDecl) (hne : ∀ d ∈ vars, d.lb ≤ d.ub)
           · subst hd'; simp at he
     · exact hE
 
+/-- an empty initial domain survives the hints -/
+theorem initDoms_empty (vars : List VarDecl) (h : ∃ d ∈ vars, d.ub < d.lb) (hints : List (Nat × Int)) :
+    (initDoms vars hints).any List.isEmpty = true := by
+  unfold initDoms
+  have key : ∀ E : Doms, (∃ i, i < E.length ∧ dget E i = []) → E.any List.isEmpty = true := by
+    rintro E ⟨i, hi, he⟩
+    apply List.any_eq_true.2
+    refine ⟨E[i], List.getElem_mem hi, ?_⟩
+    have : dget E i = E[i] := by
+      unfold dget; simp [List.getD_eq_getElem?_getD, List.getElem?_eq_getElem hi]
+    rw [← this, he]; rfl
+  apply key
+  apply foldl_inv (P := fun E : Doms => ∃ i, i < E.length ∧ dget E i = [])
+  · obtain ⟨d, hd, hlt⟩ := h
+    obtain ⟨i, hi, rfl⟩ := List.mem_iff_getElem.1 hd
+    refine ⟨i, by simpa using hi, ?_⟩
+    unfold dget
+    simp only [List.getD_eq_getElem?_getD, List.getElem?_map, List.getElem?_eq_getElem hi, Option.map_some,
+      Option.getD_some]
+    cases hr : irange vars[i].lb vars[i].ub with
+    | nil => rfl
+    | cons x l =>
+      have : x ∈ irange vars[i].lb vars[i].ub := by rw [hr]; exact List.mem_cons_self
+      have := mem_irange.1 this; omega
+  · rintro E hh _ ⟨i, hi, he⟩
+    split
+    · next hc =>
+      refine ⟨i, by rw [dset_length]; exact hi, ?_⟩
+      rw [dget_dset]
+      split
+      · next hcond =>
+        obtain ⟨rfl, _⟩ := hcond
+        rw [he] at hc; simp at hc
+      · exact he
+    · exact ⟨i, hi, he⟩
+
 end Solvor.Cp
